@@ -580,3 +580,37 @@ def tuple_components(t, n: int):
         for i in range(n):
             comps[i] |= value_alts(a[1][i])
     return comps
+
+
+def value_closure(ctx, t):
+    """Subterms a value is *made of* (following loop links): indices of subscripts, conditions of
+    conditional expressions and keys of stores are positions, not content, and are skipped."""
+    from .terms import children
+
+    seen_rec: set = set()
+    seen: set = set()
+    stack = [t]
+    while stack:
+        x = stack.pop()
+        if not isinstance(x, tuple) or not x or not isinstance(x[0], str):
+            continue
+        if x in seen:
+            continue
+        seen.add(x)
+        yield x
+        k = x[0]
+        if k == "rec" and len(x) >= 5:
+            if (x[3], x[4]) not in seen_rec:
+                seen_rec.add((x[3], x[4]))
+                stack.append(ctx.X.deref(x))
+            continue
+        if k == "sub":
+            stack.append(x[1])
+        elif k == "update":
+            stack.append(x[1])
+            stack.append(x[4])
+        elif k == "ifexp":
+            stack.append(x[2])
+            stack.append(x[3])
+        else:
+            stack.extend(children(x))
